@@ -5,6 +5,7 @@ import (
 	"reflect"
 
 	"verif/harness/model"
+	"verif/harness/zoo"
 )
 
 // CheckWiring compares the observed field values with the model.
@@ -38,6 +39,20 @@ func CheckWiringOpt(g *model.Graph, o WiringOpts) error {
 			}
 			obs := Observe(g, p)
 			seen := map[*model.Comp]bool{}
+			for i := range obs {
+				// a harness wrapper stands for the component it wraps
+				if obs[i].Comp == nil && obs[i].Wrapper != nil {
+					var tgt any = obs[i].Wrapper
+					for {
+						w, isW := tgt.(*zoo.W)
+						if !isW {
+							break
+						}
+						tgt = w.Target
+					}
+					obs[i].Comp = g.Find(tgt)
+				}
+			}
 			for _, s := range obs {
 				if s.Comp == nil {
 					return fmt.Errorf("%v holds %v which is not a registered component", p, s)
